@@ -236,14 +236,17 @@ def eval_check(cs, phys, cells, rows):
 # ------------------------------------------------------------------------- components
 
 
-def _field_errors(fs, phys, cells, rows_data, where, is_index=False, name=None, check_name=False):
-    """Errors of one array-like field (column / index / series) against a ColSpec/IndexSpec."""
+def _field_errors(fs, phys, cells, rows_data, where, is_index=False, name=None, check_name=False, rows_schema=None):
+    """Errors of one array-like field (column / index / series) against a ColSpec/IndexSpec.
+    rows_schema: positions on which the row-attributable schema-level constraints (nullable, element-wise
+    str dtype) are evaluated; None = every row."""
     errs = []
     n = len(cells)
+    all_rows = list(range(n)) if rows_schema is None else rows_schema
     if check_name and fs.get("name") is not None and fs.get("name") != name:
         errs.append(RefError("WRONG_FIELD_NAME", SCHEMA, where, "field_name"))
     if not fs.get("nullable", False):
-        bad = [i for i in range(n) if cells[i] is None]
+        bad = [i for i in all_rows if cells[i] is None]
         if bad:
             errs.append(RefError("SERIES_CONTAINS_NULLS", SCHEMA, where, "not_nullable", bad, [None] * len(bad)))
     if fs.get("unique", False):
@@ -260,6 +263,8 @@ def _field_errors(fs, phys, cells, rows_data, where, is_index=False, name=None, 
             errs.append(RefError("SERIES_CONTAINS_DUPLICATES", DATA, where, "field_uniqueness", bad,
                                  [cells[i] for i in bad]))
     dt = dtype_bad_rows(fs.get("dtype"), phys, cells)
+    if isinstance(dt, list):
+        dt = [i for i in dt if i in set(all_rows)] or None
     dtype_ok = dt is None
     if dt == "scalar":
         errs.append(RefError("WRONG_DATATYPE", SCHEMA, where, "dtype", None, phys))
@@ -279,7 +284,7 @@ def _field_errors(fs, phys, cells, rows_data, where, is_index=False, name=None, 
     return errs
 
 
-def _index_errors(ixspec, ixtable, n, rows_data):
+def _index_errors(ixspec, ixtable, n, rows_data, rows_schema=None):
     if ixspec is None:
         return []
     flat_default = {"name": None, "phys": "int64", "cells": list(range(n))}
@@ -299,7 +304,7 @@ def _index_errors(ixspec, ixtable, n, rows_data):
         if any(l.get("name") is None for l in ixspec["multi"]):
             raise Undefined("MultiIndex schema with unnamed levels")
         sub_table = {"columns": [{"name": l["name"], "phys": l["phys"], "cells": l["cells"]} for l in levels]}
-        sub = ref_validate(sub_spec, sub_table, rows=rows_data)
+        sub = ref_validate(sub_spec, sub_table, rows=rows_data, restrict_all=rows_schema is not None)
         for e in sub.errors:
             e.where = ("<index>", e.where)
         return sub.errors
@@ -307,7 +312,7 @@ def _index_errors(ixspec, ixtable, n, rows_data):
         return [RefError("MISMATCH_INDEX", DATA, "<index>", "index-on-multiindex")]
     it = ixtable or flat_default
     return _field_errors(ixspec, it["phys"], it["cells"], rows_data, "<index>", is_index=True,
-                         name=it.get("name"), check_name=True)
+                         name=it.get("name"), check_name=True, rows_schema=rows_schema)
 
 
 def expand_columns(spec, names):
@@ -328,21 +333,23 @@ def expand_columns(spec, names):
     return out, per
 
 
-def ref_validate(spec, table, rows=None):
+def ref_validate(spec, table, rows=None, restrict_all=False):
+    """restrict_all: evaluate nullable / element-wise dtype on `rows` as well (head/tail/sample semantics)."""
     kind = spec.get("kind", "dataframe")
     ref = Ref()
     from .spec import table_nrows
 
     n = table_nrows(table)
     rows_data = list(range(n)) if rows is None else sorted(set(rows))
+    rows_schema = rows_data if (restrict_all and rows is not None) else None
     if kind == "series":
         col = table["columns"][0]
         fs = dict(spec["columns"][0])
         if not spec.get("series_named", True):
             fs["name"] = None
         ref.errors += _field_errors(fs, col["phys"], col["cells"], rows_data, col["name"], name=col["name"],
-                                    check_name=True)
-        ref.errors += _index_errors(spec.get("index"), table.get("index"), n, rows_data)
+                                    check_name=True, rows_schema=rows_schema)
+        ref.errors += _index_errors(spec.get("index"), table.get("index"), n, rows_data, rows_schema)
         return ref
 
     tcols = table["columns"]
@@ -415,13 +422,13 @@ def ref_validate(spec, table, rows=None):
                 fs = dict(col)
                 if spec.get("dtype"):
                     fs["dtype"] = spec["dtype"]
-                ref.errors += _field_errors(fs, tc["phys"], tc["cells"], rows_data, label)
+                ref.errors += _field_errors(fs, tc["phys"], tc["cells"], rows_data, label, rows_schema=rows_schema)
     if spec.get("dtype") and not spec["columns"]:
         for tc in tcols:
             ref.errors += _field_errors({"dtype": spec["dtype"], "nullable": False}, tc["phys"], tc["cells"], rows_data,
-                                        tc["name"])
+                                        tc["name"], rows_schema=rows_schema)
 
-    ref.errors += _index_errors(spec.get("index"), table.get("index"), n, rows_data)
+    ref.errors += _index_errors(spec.get("index"), table.get("index"), n, rows_data, rows_schema)
 
     # dataframe-level built-in checks apply to every cell of the (filtered) frame
     for ci, cs in enumerate(spec.get("checks", [])):
